@@ -975,10 +975,10 @@ fn copy_file(
             let chunk_size = data.len();
 
             if chunk_offset + chunk_size as u64 > size {
-                // We'll check the expected vs. actual size of the file anyway after this loop,
-                // but this will catch issues earlier, so we don't spend ages copying a big file
-                // only to report the error afterwards anyway.
-                break;
+                // The file has grown since the querying phase. The check after this loop can't see this
+                // if the bytes forwarded so far happen to equal the expected size, so report it here
+                // (this also means we don't spend ages copying a big file only to report the error afterwards anyway).
+                return Err(format!("Size of {} has changed during the sync.", ctx.pretty_src_kind(&path, "file")));
             }
 
             ctx.dest_comms
